@@ -104,18 +104,19 @@ func JSONGetNaturalLanguageField(val *fastjson.Value, prop string) NaturalLangua
 	}
 	v := val.Get(prop)
 	if v == nil {
+		// more than one language is written under the "Map" term
+		v = val.Get(prop + "Map")
+	}
+	if v == nil {
 		return nil
 	}
 	switch v.Type() {
 	case fastjson.TypeObject:
 		ob, _ := v.Object()
 		ob.Visit(func(key []byte, v *fastjson.Value) {
-			l := LangRefValue{}
-			l.Ref = LangRef(key)
-			if err := l.Value.UnmarshalJSON(v.GetStringBytes()); err == nil {
-				if l.Ref != NilLangRef || len(l.Value) > 0 {
-					n = append(n, l)
-				}
+			l := LangRefValue{Ref: LangRef(key), Value: unescape(v.GetStringBytes())}
+			if l.Ref != NilLangRef || len(l.Value) > 0 {
+				n = append(n, l)
 			}
 		})
 	case fastjson.TypeString:
